@@ -383,6 +383,11 @@ def run(ctx: Ctx) -> None:
         else:
             rep.ok("C02.R8", m_.qname, desc, m_.loc(n))
     rep.floor("C02.R8", n8, 1)
+    from .c09 import registered_with_signature
+    rep.rule("C02.R9", "as C09.R2: a path produced during the analysis is registered with the RETURN signature of its producer - the one the store records for the "
+                       "path: a function that loads the path gets the same signature whether it is evaluated inside the pipeline or on its own")
+    n9 = registered_with_signature(ctx, "C02.R9")
+    rep.floor("C02.R9", n9, 2)
 
     # ---- R7: committed paths are those of the latest evaluation -------------------------------------------------
     from .c04 import commit_rules
